@@ -4,7 +4,7 @@
    GENERATED from utils/filesystem/*.go on every run), tied to the code by the correspondence runs of harness/cmd/c07. *)
 From Coq Require Import List ZArith Bool String.
 Import ListNotations.
-From GU Require Import C07.GuardTypes C07.Gen C07.Model C07.Proofs C07.Proofs2.
+From GU Require Import C07.GuardTypes C07.Gen C07.Model C07.Proofs C07.Proofs2 C07.Proofs3 C07.Proofs4 C07.Proofs5.
 Local Open Scope Z_scope.
 
 (* The repaired sanitiser accepts every name the walker can write for a legal relative path (components non-empty,
@@ -29,23 +29,48 @@ Theorem unzip_wellformed_archive_faithful : forall D m0 its,
 Proof. exact unzip_items_faithful. Qed.
 Print Assumptions unzip_wellformed_archive_faithful.
 
-(* FULL STATEMENT (zip_unzip_roundtrip): for every tree t whose names are legal and pairwise distinct among siblings,
-   unzip D (zip_entries t) succeeds and leaves under D exactly [tree_at t] (paths, kinds, contents, seconds), the list
-   being the created entries.
-   PROVED HERE (partial): the walker's archive is the entry list of its item list (zip_entries_items, all trees), and the
-   conclusion for every tree whose item list is well placed (premise [wf_seq [] (tree_items t)]).  MISSING: the lemma
-   "legal names + distinct siblings => the pre-order item list of the walker is well placed" (and the restatement of the
-   conclusion through [tree_at]); the premise is shown satisfiable on a tree with doubled/leading dots (w_tree2_wf) and is
-   exercised by every CRound correspondence case. *)
-Theorem zip_unzip_roundtrip_partial : forall D m0 t,
-  Forall legal D -> D <> [] -> dest_ready m0 D -> wf_seq [] (tree_items t) ->
+(* Round trip.  For EVERY tree t whose names are legal (non-empty, no '/', not "." / ".."; doubled, leading and trailing dots
+   allowed) and pairwise distinct among siblings — any depth, empty directories, empty files, any contents and times — and
+   every clean absolute destination D that exists and is empty: unzip D (zip t) succeeds; under D there is, at every
+   relative path, exactly what t has there (kind, content, mtime truncated to the second — directories included, although
+   their children were created after them) and nothing where t has nothing; the returned list is D/p for exactly the
+   paths p of t, each once, in archive (pre-order) order. *)
+Theorem zip_unzip_roundtrip : forall D m0 t,
+  Forall legal D -> D <> [] -> dest_ready m0 D -> legal_tree t ->
   exists s, unzip None D m0 (zip_entries t) = (s, UOk) /\
-    u_list s = map (fun it => D ++ fst it) (tree_items t) /\
-    (forall p c t', In (p, KFile c t') (tree_items t) -> lookup (u_fs s) (D ++ p) = Some (FFile c (Some (t' * ns)))) /\
-    (forall p t', In (p, KDir t') (tree_items t) -> lookup (u_fs s) (D ++ p) = Some (FDir (Some (t' * ns)))) /\
-    (forall q, q <> [] -> ~ In q (map fst (tree_items t)) -> lookup (u_fs s) (D ++ q) = None).
-Proof. intros D m0 t HD HDne HR HW. rewrite zip_entries_items. now apply unzip_items_faithful. Qed.
-Print Assumptions zip_unzip_roundtrip_partial.
+    (forall p, p <> [] -> info_of_fnode (lookup (u_fs s) (D ++ p)) = tree_at t p) /\
+    u_list s = map (app D) (map fst (tree_items t)) /\
+    NoDup (u_list s) /\
+    (forall p, In p (map fst (tree_items t)) <-> tree_at t p <> None).
+Proof. exact roundtrip_l. Qed.
+Print Assumptions zip_unzip_roundtrip.
+
+(* Zip view.  For every legal tree t, the file system built by afero's zipfs.New over the walker's archive, seen through
+   the VFS accessors Stat / Exists / IsDir / Ls / ReadFile, in any state and any number of times: a file of t is a file
+   with its size and its content; a directory of t (empty ones included) exists, is a directory and lists exactly the
+   names of its children; a path that t does not have is not found.  (The tar view deviates: see the two refuted
+   theorems below.) *)
+Theorem archive_view_faithful_zip : forall t, legal_tree t ->
+  let idx := view_index VZip (zip_entries t) in
+  forall p st, p <> [] ->
+  match tree_at t p with
+  | Some (IFile c _) =>
+      view_step VZip idx st OpStat p = (VStat false (Z.of_nat (List.length c)), st) /\
+      view_step VZip idx st OpExists p = (VBool true, st) /\
+      view_step VZip idx st OpIsDir p = (VBool false, st) /\
+      view_step VZip idx st OpRead p = (match c with [] => VEmptyErr | _ => VData c end, st)
+  | Some (IDir _) =>
+      view_step VZip idx st OpStat p = (VStat true 0, st) /\
+      view_step VZip idx st OpExists p = (VBool true, st) /\
+      view_step VZip idx st OpIsDir p = (VBool true, st) /\
+      exists names, view_step VZip idx st OpLs p = (VNames names, st) /\ forall f, In f names <-> tree_at t (p ++ [f]) <> None
+  | None =>
+      view_step VZip idx st OpStat p = (VNotFound, st) /\
+      view_step VZip idx st OpExists p = (VBool false, st) /\
+      view_step VZip idx st OpRead p = (VNotFound, st)
+  end.
+Proof. exact zip_view_ops_l. Qed.
+Print Assumptions archive_view_faithful_zip.
 
 (* Read-only wrapper: every mutating back-end call is answered with an error and is not forwarded; reads are forwarded. *)
 Theorem readonly_refuses_mutation : forall b,
@@ -64,6 +89,15 @@ Theorem closed_serves_nothing : forall m, In m methods ->
   (run_closed methods fuel0 (m_body m) = OBackend -> in_list unguarded_backend_mentions (m_name m) = true).
 Proof. exact closed_serves_nothing_l. Qed.
 Print Assumptions closed_serves_nothing.
+
+(* The abstract run used by closed_serves_nothing is sound for EVERY table and every resolution of the non-determinism
+   of the execution semantics [exec] (Proofs5.v): if it does not end in OBackend no backend mention is reached, and if it
+   ends in OFailCond / OFailOther the call returns an error without reaching the backend. *)
+Theorem run_closed_sound : forall tbl oracle fuel body st,
+  (run_closed tbl fuel body <> OBackend -> fst (exec tbl oracle fuel st body) = false) /\
+  (fails (run_closed tbl fuel body) = true -> exec tbl oracle fuel st body = (false, true)).
+Proof. exact run_closed_sound_l. Qed.
+Print Assumptions run_closed_sound.
 
 (* Known findings (the full statement "the view exposes the tree" is FALSE of the faithful model of afero's tarfs). *)
 Theorem tar_empty_dir_invisible_refuted : exists t p,
@@ -97,8 +131,18 @@ Proof.
   - intros k Hk. simpl in Hk. destruct k as [|[|[|k]]]; try (exfalso; Lia.lia); eexists; reflexivity.
   - intros q Hq. destruct q; [contradiction|]. reflexivity.
 Qed.
-Example roundtrip_premise_satisfiable : wf_seq [] (tree_items w_tree2).
-Proof. exact w_tree2_wf. Qed.
+Example legal_tree_satisfiable : legal_tree w_tree2 /\ wf_seq [] (tree_items w_tree2).
+Proof.
+  split; [|exact w_tree2_wf].
+  assert (L : forall c, (c <> [] /\ ~ In slash c /\ c <> [dot] /\ c <> [dot; dot]) -> legal c) by (intros c H; exact H).
+  assert (Lg : forall c, c <> [] -> (forallb (fun b => negb (b =? slash)) c = true) -> c <> [dot] -> c <> [dot; dot] -> legal c).
+  { intros c H1 H2 H3 H4. apply L. repeat split; auto. intros Hin. rewrite forallb_forall in H2. specialize (H2 _ Hin). now rewrite Z.eqb_refl in H2. }
+  unfold legal_tree, w_tree2. repeat split.
+  - repeat constructor; simpl; intros H; repeat (destruct H as [H|H]; [discriminate H|]); exact H.
+  - repeat constructor; apply Lg; try discriminate; reflexivity.
+  - repeat constructor; simpl; try (intros H; repeat (destruct H as [H|H]; [discriminate H|]); exact H);
+      try (apply Lg; try discriminate; reflexivity).
+Qed.
 Example roundtrip_concrete :
   let t := [([97; 46; 46; 98], File [1; 2; 3] 5500000000); ([100], Dir 7999999999 [([102], File [] 1000000000); ([101], Dir 3000000000 [])])] in
   exists s, unzip None [[116]; [111]] [] (zip_entries t) = (s, UOk) /\
